@@ -4,7 +4,8 @@ import ast
 from ..callgraph import CallGraph
 from ..fold import ClassRef, FuncRef, Instance
 from ..marshal_read import guards_apply
-from ..report import AnalysisError
+from ..par import pmap
+from ..report import AnalysisError, SubReport, merge_sub
 from ..repo import get_repo
 from ..sve import (Brk, Cont, Fall, Guard, Op, Raise, Ret, Spec, Sym, conjuncts, flatten_effects, leaves, show)
 from ..tables import tables
@@ -29,6 +30,11 @@ def stdout_sinks(cg, q):
     return out
 
 
+def _decoder_work(mname):
+    from . import dis_rules
+    return dis_rules.table_worker(mname, ("C02", "C03", "C04"))
+
+
 def run(rep, tier):
     rep.explanation = ("call-graph reachability (resolved through the repo's own table/dispatch bindings) for stray output; per-format specialisation of the "
                        "listing loop (symbolic instruction) for exactly-once emission; def-use of the rendered columns in Instruction.disassemble; "
@@ -37,6 +43,8 @@ def run(rep, tier):
     rep.rule("R2", "in the listing loop every instruction is written exactly once, in iteration order, except CACHE entries (hidden) and, in xasm only, EXTENDED_ARG prefixes (folded)")
     rep.rule("R3", "the rendered offset, opcode name, '>>' mark and line number column come from that instruction's offset / opname / is_jump_target / starts_line")
     rep.rule("R4", "every format name pydisasm accepts is dispatched on somewhere in the listing code")
+    rep.rule("R5", "the instruction records the listing renders are the decoder's: per (opcode table, opcode) the offset/width/operand (C02 rules), "
+                   "the operand value and text (C03 rules) and the jump target and label set (C04 rules) agree with Lib/dis.py of that version")
     T = tables()
     F = T.F
     repo = get_repo()
@@ -192,6 +200,21 @@ def run(rep, tier):
     stray = sorted(c for c in compared if c not in choices and c not in ("asm", "dis"))
     for s_ in stray:
         rep.note("format literal %r is compared with asm_format but is not a format pydisasm accepts (dead branch?)" % s_)
+    # ---------------------------------------------------------------- R5 the decoded records (shared engine with C02/C03/C04)
+    from . import dis_rules
+    names = sorted(T.reachable)
+    results = pmap(_decoder_work, names)
+    subs = {p: SubReport(p) for p in ("C02", "C03", "C04")}
+    nops = 0
+    for res in results:
+        for (p_, rule, construct, detail, ok, exp, got, where, msg) in res:
+            if p_ == "META":
+                nops += detail
+            elif p_ in subs:
+                subs[p_].ob(rule, construct, detail, ok, expected=exp, derived=got, where=where, msg=msg)
+    rep.floor("(table, opcode) decoder specialisations", nops, 4000)
+    for p_ in sorted(subs):
+        merge_sub(rep, subs[p_], "R5", p_)
     rep.extra["stdout_sink_sites_reachable"] = nsinks
     rep.extra["unresolved_calls"] = len(cg.unresolved)
     rep.assumptions = ["call resolution by the binding rules of xv/callgraph.py; unresolved attribute calls on container/stream method names are external",
